@@ -155,6 +155,25 @@ Theorem C09_history_equal_iff_denote : forall ha hb a b,
 Proof. exact history_equal_iff_denote. Qed.
 Print Assumptions C09_history_equal_iff_denote.
 
+(* ---- process-wide settings ---- *)
+(* json_global_set_string_hash / json_c_set_serialization_double_format calls inserted at any
+   point of the histories change neither the trees reached nor (the settings being a
+   parameter that the model of json_object_equal / json_object_deep_copy ignores) the result
+   of comparing or copying them *)
+Theorem C09_history_globals_ignored : forall h v,
+  fst (run_history h v) = fst (run_history (filter (fun pm => negb (is_global pm)) h) v).
+Proof. exact history_globals_ignored. Qed.
+Print Assumptions C09_history_globals_ignored.
+
+Theorem C09_settings_irrelevant : forall g g' ha hb a b,
+  let a1 := fst (fst (run_history_g g ha a)) in
+  let b1 := fst (fst (run_history_g g hb b)) in
+  let a2 := fst (fst (run_history_g g' ha a)) in
+  let b2 := fst (fst (run_history_g g' hb b)) in
+  a1 = a2 /\ b1 = b2 /\ jv_equal_in g a1 b1 = jv_equal_in g' a2 b2 /\ deep_copy_in g a1 = deep_copy_in g' a2.
+Proof. exact settings_irrelevant. Qed.
+Print Assumptions C09_settings_irrelevant.
+
 (* ---- deep copy with a caller-supplied json_c_shallow_copy_fn ---- *)
 (* the callback's answers (1 / 2 / -1) and the set of source nodes carrying application
    userdata are ORACLES: arbitrary functions of the history of calls and of the present call.
